@@ -21,6 +21,8 @@ def column_part(chk, quick, rnd):
     jobs = []
     for c in cases:
         jobs.append({"prog": c["prog"], "flow": c["flow"], "metadata": False, "ds": S, "mech": "scoped", "opts": {}})
+        # the same text with no default in force, in the same process, right after: nothing of the scope may linger
+        jobs.append({"prog": c["prog"], "flow": c["flow"], "metadata": False, "mech": "none", "opts": {}})
         if not any(r["r"] == 9 for it in c["prog"]["items"] for r in it["refs"]):
             # (a schema-qualified column qualifier is not something the core grammar writes: the fallback is exercised by the
             # two configuration mechanisms only)
@@ -37,8 +39,102 @@ def column_part(chk, quick, rnd):
     obs += [x for part in eres for x in part]
     verdicts, keep = c02.decide(chk, jobs, obs, "colds")
     for (j, o), v in zip(keep, verdicts):
-        chk.count(["col", j["prog"], j["mech"]], nontrivial=True)
+        chk.count(["col", j["prog"], j["mech"]], nontrivial=j["mech"] != "none")
     chk.cov["column_level_verdicts"] = {k: verdicts.count(k) for k in sorted(set(verdicts))}
+
+
+def _script_chunk(jobs):
+    """every prefix of a script through the real LineageRunner under one mechanism; names under the default are written back
+    to bare names (the projection Trace_Script expects); a name under the placeholder while a default is in force stays as it is"""
+    import warnings
+    warnings.simplefilter("ignore")
+    from .. import script_drv as d
+    import sqllineage.runner  # noqa: before any scope is entered
+    from sqllineage.config import SQLLineageConfig
+    from sqllineage.runner import LineageRunner
+    out = []
+    for j in jobs:
+        S, mech, h = j["S"], j["mech"], j["h"]
+        dia = "mysql" if any(d.dialect_of(s) == "mysql" for s in h) else "ansi"
+
+        def q(n):
+            return S + "." + n if mech == "qualified" else n
+        hq = [dict(s, t=q(s["t"]) if s.get("t", "none") != "none" else s.get("t", "none"), r=[q(x) for x in s["r"]],
+                   w=q(s["w"]) if s["w"] != "none" else "none", pairs=[[q(a), q(b)] for a, b in s["pairs"]]) for s in h]
+        sqls = [d.render(s, dia) for s in hq]
+        prefix = (S + ".") if mech != "none" else "<default>."
+
+        def short(n):
+            n = str(n)
+            return n[len(prefix):] if n.startswith(prefix) else n
+
+        def summary(text):
+            try:
+                lr = LineageRunner(text, dialect=dia)
+                cy = lr.to_cytoscape()
+                return {"e": sorted([short(e["data"]["source"]), short(e["data"]["target"])] for e in cy if "source" in e["data"]),
+                        "s": sorted(short(t) for t in lr.source_tables), "t": sorted(short(t) for t in lr.target_tables),
+                        "i": sorted(short(t) for t in lr.intermediate_tables), "x": "none"}
+            except Exception as e:  # noqa
+                return {"e": [], "s": [], "t": [], "i": [], "x": type(e).__name__}
+        obs = []
+        for k in range(1, len(sqls) + 1):
+            text = ";\n".join(sqls[:k])
+            if mech == "scoped":
+                with SQLLineageConfig(DEFAULT_SCHEMA=S):
+                    obs.append(summary(text))
+            else:
+                obs.append(summary(text))
+        out.append({"obs": obs, "text": ";\n".join(sqls), "dialect": dia})
+    return out
+
+
+def script_part(chk, quick, rnd):
+    """scripts (Script.tla histories of 3-4 statements) under a default schema: each mechanism's result for every prefix must be
+    a result the statement fold's ideal relation accepts for the same history over bare names"""
+    import multiprocessing as mp
+    import os
+    from . import c03
+    cfg = tlc.write_cfg(os.path.join(chk.work, "ds_script.cfg"),
+                        constants=dict(TableSeq="<- TS4", MaxLen=6, MaxPairs=2, Known=set(), Emit=True, ColumnLess=True), invariants=["EmitCase"])
+    r = chk.tlc("MC_Script", cfg, "generate: simulated histories for the script-level part", workers=1, coverage=False,
+                simulate="num=%d" % (600 if quick else 8000), depth=7, seed=chk.seed + 5)
+    seen, hs = set(), []
+    for c in r.cases("CASE"):
+        k = str(c["h"])
+        if len(c["h"]) >= 3 and k not in seen:
+            seen.add(k)
+            hs.append(c)
+    rnd.shuffle(hs)
+    hs = hs[:250 if quick else 4000]
+    S = "dflt_x"
+    jobs = [{"h": c["h"], "S": S, "mech": m} for c in hs for m in ("scoped", "qualified", "none")]
+    pool = mp.Pool(16, initializer=stmt_variants._init, initargs=({},))
+    try:
+        res = [x for part in pool.map(_script_chunk, c03.chunks(jobs, 64)) for x in part]
+    finally:
+        pool.terminate()
+    ejobs = [{"h": c["h"], "S": S, "mech": "env"} for c in hs]
+    pool = mp.Pool(16, initializer=stmt_variants._init, initargs=({"SQLLINEAGE_DEFAULT_SCHEMA": S},))
+    try:
+        res += [x for part in pool.map(_script_chunk, c03.chunks(ejobs, 64)) for x in part]
+    finally:
+        pool.terminate()
+    jobs += ejobs
+    traces = [c03.to_trace({"h": j["h"]}, o["obs"]) for j, o in zip(jobs, res)]
+    tcfg = os.path.join(tlc.SPEC, "Trace_Script.cfg")
+    v = core.validate_traces(chk, "Trace_Script", tcfg, traces, "dsscript")
+    verdicts = []
+    for i, (j, o) in enumerate(zip(jobs, res)):
+        verdict = v[i + 1][1]
+        verdicts.append(verdict if verdict == "ok" else verdict.split(":")[0])
+        chk.count(["script", j["h"], j["mech"]], nontrivial=j["mech"] != "none")
+        if verdict != "ok":
+            chk.reject({"module": "Script", "clause": verdict.split(":")[0], "mechanism": j["mech"], "n_statements": len(j["h"])},
+                       {"sql": o["text"], "dialect": o["dialect"], "mechanism": j["mech"], "default_schema": S if j["mech"] != "none" else None,
+                        "observed_per_prefix": o["obs"], "verdict": verdict,
+                        "how": "every prefix of the script through LineageRunner under the mechanism; names under the default written back to bare names; Trace_Script decides"})
+    chk.cov["script_level_verdicts"] = {k: verdicts.count(k) for k in sorted(set(verdicts))}
 
 
 def run(chk):
@@ -80,6 +176,7 @@ def run(chk):
         all_c.append(c)
         all_o.append(o)
     column_part(chk, quick, rnd)
+    script_part(chk, quick, rnd)
     verdicts = c01.decide(chk, all_c, all_o, "ds")
     for c, o in zip(all_c, all_o):
         chk.count([c["prog"], o["mech"], o["ds"]], nontrivial=o["mech"] != "none")
@@ -95,4 +192,5 @@ def run(chk):
                        "program also uses as qualifier} x {scoped override, environment variable set before import (own worker pool), textual "
                        "qualification with no default} + no default at all; every observation decided by Trace_Stmt with ds = S. "
                        "non-trivial = a default schema is in force." % len(cases))
-    chk.assumptions += ["column owners under a default schema: Col.tla programs (one item, incl. the unknown-qualifier fallback) under the same three mechanisms, names under the fresh default written back to the placeholder before Trace_Col decides"]
+    chk.assumptions += ["script level: Script.tla histories of 3-4 statements under the same mechanisms, every prefix decided by Trace_Script (the ideal relation of the statement fold over bare names)",
+                        "column owners under a default schema: Col.tla programs (one item, incl. the unknown-qualifier fallback) under the same three mechanisms, names under the fresh default written back to the placeholder before Trace_Col decides"]
